@@ -70,6 +70,11 @@ def step (st : St) (op obs : List String) : St × Option String :=
 
 def model : Model St := { init := {}, step := step }
 
-def entries : List (String × IO UInt32) := [("C06toy", runModel model)]
+/-- `C06ring` has nothing to compare (real ring keys: the model has no ring): monitor-only run. -/
+def ringModel : Model Unit := { init := (), step := fun s op _ => match op with
+  | "ring" :: _ => (s, none)
+  | _ => (s, some "BAD op") }
+
+def entries : List (String × IO UInt32) := [("C06toy", runModel model), ("C06ring", runModel ringModel)]
 
 end GmQuic.Drv.C06
